@@ -1211,6 +1211,7 @@ def _fstrings(u):
         elif ty == pytok.FSTRING_END and stack:
             f = stack.pop()
             f["b"] = b
+            f["end_a"] = a
             out.append(f)
         elif ty == pytok.FSTRING_MIDDLE and stack:
             nxt = toks[i + 1][2] if i + 1 < len(toks) else b
@@ -1250,19 +1251,24 @@ def d_fstring_backslash_brace(u):
 
 @form(
     "raw-fstring-backslash-quote",
-    "in a raw single-quoted f-string a backslash followed by the delimiter quote (`rf'\\'{x}'`, `rf'a\\'b'`) ends the literal early for xonsh's tokenizer: rejected",
-    [("rf'\\'{x}'\n", "exec")],
+    "in a raw f-string a backslash followed by the delimiter quote ends the literal early for xonsh's tokenizer: single-quoted anywhere (`rf'\\'{x}'`, `rf'a\\'b'`), triple-quoted directly before the closing delimiter (`rf\"\"\"\\\"\"\"\"`): rejected",
+    [("rf'\\'{x}'\n", "exec"), ('v = rf"""\\""""\n', "exec")],
     {"reject"},
 )
 def d_raw_fstring_quote(u):
     ed = []
     for f in _fstrings(u):
-        if "r" not in f["prefix"] or len(f["quote"]) != 1:
+        if "r" not in f["prefix"]:
             continue
+        q = f["quote"][0]
         for text, a, b in f["pieces"]:
-            for m in re.finditer(re.escape("\\" + f["quote"]), text):
-                k = a + len(text[: m.start() + 1].encode("utf-8"))
-                ed.append((k, k + 1, b"q"))
+            if len(f["quote"]) == 1:
+                for m in re.finditer(re.escape("\\" + q), text):
+                    k = a + len(text[: m.start() + 1].encode("utf-8"))
+                    ed.append((k, k + 1, b"q"))
+            elif b == f.get("end_a") and text.endswith("\\" + q):
+                # triple-quoted: only a backslash-quote directly before the closing delimiter (`rf"""\""""`)
+                ed.append((b - 1, b, b"q"))
     return ed
 
 
@@ -2116,7 +2122,8 @@ def run(ctx):
         for nm, rule in [
             ("known-witness", "the witnesses of every known finding: an OPEN one must still fail and be explained by that finding's own form; a FIXED one must parse to CPython's tree (it may touch other open forms only) — a repaired defect that comes back is a VIOLATION"),
             ("corners", f"{len(c01gen.CORNERS)} hand-written token-level corner cases (redirect look-alikes, numbers, string prefixes, PEP 701 f-strings, indentation / continuation, trailing commas, annotation and parameter positions, soft keywords, match, except*, with, decorators, every operator, targets, non-ASCII identifiers), each in every mode CPython accepts it in"),
-            ("files", "(a) .py files of the interpreter's stdlib and /venv site-packages that CPython parses (decoded by their coding cookie): the whole file in exec mode; non-trivial = every file"),
+("string-grid", "SYSTEMATIC grid, not sampled: every legal string prefix of the interpreter in every case permutation and letter order (tokenize._all_string_prefixes: '' r R u U b B f F br … FR rf … RF, 25 spellings) × the four quote styles × every body shape (plain text, escapes, backslash-quote, `{{` `}}`, replacement fields with conversions / format specs / nested fields / `=`, backslash directly before `{` and before the quote, \\N{…}, other-quote nesting) — every combination CPython accepts, as `v = <literal>`"),
+                        ("files", "(a) .py files of the interpreter's stdlib and /venv site-packages that CPython parses (decoded by their coding cookie): the whole file in exec mode; non-trivial = every file"),
             ("files/statement", "every top-level statement of those files re-parsed ALONE in exec mode, in single mode and (expression statements) in eval mode"),
             ("generated", "(b) random ast trees of the running grammar (every statement / expression / pattern / type-parameter kind; depth 1-3) -> ast.unparse, in exec / eval / single mode"),
             ("rewrites", "(c) token-level rewrites of generated programs that keep CPython's tree: other indentation unit / tabs, backslash continuations, line breaks and comments inside brackets, blanks squeezed out or widened around operators, string-prefix / quote re-spelling, trailing commas, bare tuples, `;`-joined statements"),
@@ -2124,6 +2131,9 @@ def run(ctx):
             ctx.stream_rule(nm, rule)
         replay_known(ctx, pool)
         _run_tasks(ctx, pool, ["corners"], [{"kind": "texts", "stream": "corners", "items": corner_items()[i::16], "parsers": parsers} for i in range(16)])
+        grid = [(o, t, "exec") for o, t in c01gen.string_grid()]
+        ctx.extra["string_grid"] = {"prefix_spellings": len(c01gen.all_string_prefixes()), "texts": len(grid)}
+        _run_tasks(ctx, pool, ["string-grid"], [{"kind": "texts", "stream": "string-grid", "items": grid[i::32], "parsers": parsers} for i in range(32)])
         files = list_files()
         ctx.extra["files_available"] = len(files)
         if quick:
